@@ -198,6 +198,7 @@ def run_shard(ctx):
 def replay(record):
     from ..runner import Ctx
     ctx = Ctx("C15", "quick", 0, 0, 1, collect=True)
+    ctx.replaying = True
     prop(ctx, {"spec": record["spec"], "cfgs": [record.get("cfg", {})], "seed": record.get("seed", 0)})
     if ctx.violations:
         b, (sz, rec) = next(iter(ctx.violations.items()))
